@@ -8,7 +8,7 @@ same bytes as the Python `cryptography` stack for the same secrets, so that the 
 check compares real wire bytes.  Their functional correctness is *validated differentially*
 against `cryptography`/`hashlib` in every run that uses them; it is not proved (trusted base). -/
 
-namespace HapVerif.Crypto
+namespace HapVerif.RealCrypto
 
 namespace Sha512
 def K : Array Nat := #[
@@ -222,4 +222,4 @@ def edVerify (pk msg sig : Bytes) : Bool :=
   | _, _ => false
 
 
-end HapVerif.Crypto
+end HapVerif.RealCrypto
